@@ -96,7 +96,7 @@ pub fn connect_and_run(
 /// authorize -> CONNACK); bit 3: the CONNACK's properties are written in reverse order; bit 4: the
 /// client's own CONNECT announces limits for the *inbound* direction (Receive Maximum 1000, Maximum
 /// Packet Size 1 MiB, topic alias maximum, keep alive, will, credentials), which never limit what
-/// it may send; bit 5 (with bit 4; only for histories without inbound PUBLISH packets, where the
+/// it may send; bit 6: the Context has already served (and lost) an earlier connection; bit 5 (with bit 4; only for histories without inbound PUBLISH packets, where the
 /// scripted broker cannot exceed them): those limits are 1 and 256 bytes.
 pub fn connect_and_run_v(w: &mut World, spec: ConnectSpec, connack: &rc::Connack, plan: &WritePlan, variant: u8) -> Result<(), String> {
     if variant == 0 {
@@ -131,6 +131,31 @@ pub fn connect_and_run_v(w: &mut World, spec: ConnectSpec, connack: &rc::Connack
         spec.user_props.push(("client".into(), "harness".into()));
     }
     let form = if variant & 8 != 0 { rc::Form { order: (0u8..32).rev().collect(), short: false } } else { rc::Form::canonical() };
+    if variant & 64 != 0 {
+        // the Context has been used before: an earlier connection on it ended three bytes into an
+        // inbound packet; fresh transport halves are then given to the same Context (the plain
+        // production path: no session is resumed)
+        plan.install(w);
+        w.tick();
+        if !w.start_connect(ConnectSpec::default()) {
+            return Err("harness: context not idle".into());
+        }
+        settle(w, plan, false);
+        w.reader.feed(rc::encode(&rc::Packet::Connack(rc::Connack::default()), &rc::Form::canonical()));
+        settle(w, plan, false);
+        if matches!(w.conn_results.last(), Some(ConnRes::Connack(_))) {
+            w.tick();
+            w.start_run();
+            settle(w, plan, false);
+            w.reader.feed(vec![0x30, 0x0a, 0x00]);
+            settle(w, plan, false);
+        }
+        w.reader.set_eof();
+        settle(w, plan, false);
+        if !w.set_up_again() {
+            return Err(format!("prologue: the earlier connection on this Context did not end at end-of-stream (run {:?})", w.run_result));
+        }
+    }
     plan.install(w);
     w.tick();
     if variant & 4 != 0 {
@@ -179,14 +204,14 @@ pub fn connect_and_run_v(w: &mut World, spec: ConnectSpec, connack: &rc::Connack
 /// generator for the prologue variant: half of the cases use the plain prologue
 pub fn prologue_variant() -> proptest::strategy::BoxedStrategy<u8> {
     use proptest::prelude::*;
-    prop_oneof![1 => Just(0u8), 1 => 0u8..32].boxed()
+    prop_oneof![2 => Just(0u8), 2 => 0u8..32, 1 => (0u8..32).prop_map(|v| v | 64)].boxed()
 }
 
 /// `prologue_variant` for histories in which the broker sends no PUBLISH: the client-side limits
 /// may then be tiny
 pub fn prologue_variant_no_inbound() -> proptest::strategy::BoxedStrategy<u8> {
     use proptest::prelude::*;
-    prop_oneof![2 => Just(0u8), 2 => 0u8..32, 1 => (0u8..16).prop_map(|v| v | 48)].boxed()
+    prop_oneof![3 => Just(0u8), 3 => 0u8..32, 2 => (0u8..16).prop_map(|v| v | 48), 1 => (0u8..32).prop_map(|v| v | 64)].boxed()
 }
 
 pub fn first_panic(w: &World) -> Option<String> {
